@@ -87,6 +87,9 @@ def legacy_expect(v, sc):
 def gen_legacy(rng, depth=2):
     r = rng.random()
     if r < 0.2:
+        if rng.random() < 0.4:
+            # bytes that happen to be well-formed UTF-8 (what a Python-2 program holding encoded text would send): still latin-1, byte for byte
+            return Py2Str("".join(rng.choice(["a", "\u00e9", "\u6f22", "\U0001f600", "\u00ff", "\n"]) for _ in range(rng.choice([1, 2, 5]))).encode("utf-8"))
         return Py2Str(bytes(rng.choice([0x61, 0xe9, 0xff, 0x80, 0x0a, 0x00]) for _ in range(rng.choice([0, 1, 3, 8]))))
     if r < 0.35:
         return Py2Unicode(C.gen_str(rng))
